@@ -394,6 +394,30 @@ Proof.
         end ]).
 Qed.
 
+(* ---- the draw table read as offsets: which bytes become which first-round value ----------------- *)
+
+(* Lindell22: the nonce point is the sample of the first wide_len bytes *)
+Lemma lindell22_nonce_site : forall q c t,
+  nth_error (first_msg q (draws PLindell22 c 1) t) 0 =
+  Some (TExp (sample_scalar q (slice 0 (N.to_nat (c_w c)) t))).
+Proof. intros. reflexivity. Qed.
+
+(* DKLs23 round 1: r, the commitment witness and phi come from three consecutive, disjoint
+   ranges of the tape (phi is not r) *)
+Lemma dkls23_round1_sites : forall q c t,
+  let W := N.to_nat (c_w c) in
+  firstn 3 (party_values q (draws PDkls23Bbot c 1) t) =
+  [VScalar (sample_scalar q (slice 0 W t)); VRaw (slice W (N.to_nat 32) t);
+   VScalar (sample_scalar q (slice (W + N.to_nat 32) W t))].
+Proof. intros. reflexivity. Qed.
+
+(* session setup round 1: commitment key, contribution, witness are the raw 32-byte reads *)
+Lemma session_round1_sites : forall q c t,
+  first_msg q (draws PSession c 1) t =
+  [TBytes (slice 0 (N.to_nat 32) t); TBytes (slice (N.to_nat 32) (N.to_nat 32) t);
+   TBytes (slice (N.to_nat 32 + N.to_nat 32) (N.to_nat 32) t)].
+Proof. intros. reflexivity. Qed.
+
 (* ---- examples (non-vacuity) ------------------------------------------------------------------------ *)
 
 Definition ex_q : N := 101.
